@@ -71,7 +71,11 @@ func c13Ops(seed int64, n int) []c13Op {
 		case 4:
 			ops = append(ops, c13Op{Kind: "wgraph", Model: withID(rng, GenWModel(rng).Proto())})
 		case 5:
-			ops = append(ops, c13Op{Kind: "validate", Text: []string{"doc:1", "group:eng#member", "user:*", "a b", "doc:1:2"}[rng.Intn(5)]})
+			// strings related by the names of the validators themselves and of their parts (a result that is
+			// remembered under a key built from such names must not leak between validators or strings)
+			base := []string{"doc:1", "group:eng#member", "user:*", "a b", "doc:1:2", "tings:dark", "ive:q3#owner", "s:all", "up:1", "s:*", ":x", "x#y"}[rng.Intn(12)]
+			pre := []string{"", "", "", "set", "object", "wildcard", "user", "userset", "type", "relation", "id", "condition"}[rng.Intn(12)]
+			ops = append(ops, c13Op{Kind: "validate", Text: pre + base})
 		}
 	}
 	return ops
@@ -140,7 +144,20 @@ func c13Exec(op c13Op) (string, string) {
 		}
 		return e + r.Full, frame
 	case "validate":
-		return B(validation.ValidateUser(op.Text)) + B(validation.ValidateObject(op.Text)), ""
+		// a different validator first on every call, so that every pair of validators meets in both orders over the run
+		vs := []func(string) bool{validation.ValidateUser, validation.ValidateUserSet, validation.ValidateUserObject, validation.ValidateUserWildcard,
+			validation.ValidateObject, validation.ValidateObjectID, validation.ValidateRelation, validation.ValidateType, validation.ValidateRelationshipCondition}
+		out := make([]byte, len(vs))
+		k := len(op.Text) % len(vs)
+		for j := range vs {
+			i := (j + k) % len(vs)
+			if vs[i](op.Text) {
+				out[i] = '1'
+			} else {
+				out[i] = '0'
+			}
+		}
+		return string(out), ""
 	}
 	return "", ""
 }
